@@ -43,10 +43,10 @@ def addassign_off(ty, n, off, cfg):
     return Case('C07/offmap-addassign/%s/%d/off%d/%s' % (ty.name, n, off, cfg.tag()), 'C07', body, [a, c], ens, 'SYM', cfg)
 
 def sum_off(ty, n, off, cfg):
-    a = Buf('a', ty, n + off, 'in'); c = Buf('c', ty, 1, 'out')
+    a = Buf('a', ty, n + off, 'in', atoms='LIN'); c = Buf('c', ty, 1, 'out')
     body = '    %s\n    c[0] = sum(A);' % off_map(ty, (n,), 'a', off)
     ens = [(c, 0, E.total([E.inp(a, off + k) for k in range(n)], ty))]
-    return Case('C07/offmap-sum/%s/%d/off%d/%s' % (ty.name, n, off, cfg.tag()), 'C07', body, [a, c], ens, 'SYM', cfg)
+    return Case('C07/offmap-sum/%s/%d/off%d/%s' % (ty.name, n, off, cfg.tag()), 'C07', body, [a, c], ens, 'ATOMS', cfg)
 
 def matmul_off(ty, M, K, N, off, cfg):
     a = Buf('a', ty, M * K + off, 'in', atoms='A'); b = Buf('b', ty, K * N + off, 'in', atoms='B'); c = Buf('c', ty, M * N + off, 'inout')
@@ -57,14 +57,16 @@ def matmul_off(ty, M, K, N, off, cfg):
     return Case('C07/offmap-matmul/%s/%dx%dx%d/off%d/%s' % (ty.name, M, K, N, off, cfg.tag()), 'C07', body, [a, b, c], ens, 'ATOMS', cfg)
 
 def slice_off(ty, n, off, cfg):
-    """strided slice read/write through an offset map"""
-    m = (n + 1) // 2
-    a = Buf('a', ty, n + off, 'in'); c = Buf('c', ty, n + off, 'inout')
-    body = '    %s %s\n    C(seq(0,%d,2)) = A(seq(0,%d,2));' % (off_map(ty, (n,), 'a', off), off_map(ty, (n,), 'c', off, const=False), n, n)
+    """strided slice read/write through an offset 2-D map (rows 0..1, every second column)"""
+    tot = 2 * n
+    a = Buf('a', ty, tot + off, 'in'); c = Buf('c', ty, tot + off, 'inout')
+    body = '    %s %s\n    C(all,seq(0,%d,2)) = A(all,seq(0,%d,2));' % (off_map(ty, (2, n), 'a', off), off_map(ty, (2, n), 'c', off, const=False), n, n)
     ens = [(c, k, E.inp(c, k)) for k in range(off)]
-    for k in range(n):
-        ens.append((c, off + k, E.inp(a, off + k) if k % 2 == 0 else E.inp(c, off + k)))
-    return Case('C07/offmap-slice/%s/%d/off%d/%s' % (ty.name, n, off, cfg.tag()), 'C07', body, [a, c], ens, 'SYM', cfg)
+    for r in range(2):
+        for k in range(n):
+            p = off + r * n + k
+            ens.append((c, p, E.inp(a, p) if k % 2 == 0 else E.inp(c, p)))
+    return Case('C07/offmap-slice/%s/2x%d/off%d/%s' % (ty.name, n, off, cfg.tag()), 'C07', body, [a, c], ens, 'SYM', cfg)
 
 def checked_index(ty, shape, cfg, write=False, use_map=False):
     """runtime checks on, symbolic index possibly out of range: normal exit implies index in range."""
@@ -124,8 +126,8 @@ def cases(tier, seed):
                     if M <= 17 and N <= 17: out.append(transpose_off(ty, M, N, off, cfg))
                 for n in sorted({1, V - 1, V, V + 1, 2 * V + 1} - {0}):
                     if ty is INT:
-                        out.append(add_off(ty, n, off, cfg)); out.append(addassign_off(ty, n, off, cfg)); out.append(sum_off(ty, n, off, cfg))
-                    out.append(slice_off(ty, n, off, cfg))
+                        out.append(add_off(ty, n, off, cfg)); out.append(addassign_off(ty, n, off, cfg))
+                    out.append(sum_off(ty, n, off, cfg))
                 for (M, K, N) in ([(3, 2, V + 1), (2, 3, V)] if not thorough else [(3, 2, V + 1), (2, 3, V), (4, 4, 2 * V + 1), (1, 5, V - 1 or 1), (V, V, V)]):
                     if N <= 17 and M <= 9: out.append(matmul_off(ty, M, K, N, off, cfg))
         # runtime checks
